@@ -36,7 +36,7 @@ func newWSHandler(host string, dial dialFunc, conn gkm.Gauge) http.Handler {
 			return
 		}
 
-		in, _, err := hj.Hijack()
+		in, brw, err := hj.Hijack()
 		if err != nil {
 			log.Printf("[ERROR] Hijack error for %s. %s", r.URL, err)
 			http.Error(w, "hijack error", http.StatusInternalServerError)
@@ -57,6 +57,15 @@ func newWSHandler(host string, dial dialFunc, conn gkm.Gauge) http.Handler {
 			log.Printf("[ERROR] Error copying request for %s. %s", r.URL, err)
 			http.Error(w, "error copying request", http.StatusInternalServerError)
 			return
+		}
+
+		// what the client sent together with its request has already been
+		// read from the connection: it is the start of the client's stream
+		if n := brw.Reader.Buffered(); n > 0 {
+			if _, err := io.CopyN(out, brw.Reader, int64(n)); err != nil {
+				log.Printf("[ERROR] Error copying request for %s. %s", r.URL, err)
+				return
+			}
 		}
 
 		// read the initial response to check whether we get an HTTP/1.1 101 ... response
